@@ -426,6 +426,12 @@ func init() {
 		Rule: "2-4 writer goroutines put 1-12 internal keys each (<=6 user keys that share prefixes, versions 1-4, so the same internal key is overwritten concurrently) into one real skl.Skiplist while 1-3 readers Get and iterate in both directions; schedule points before every CAS / setValue / height CAS of Put let the scheduler interleave at the granularity of the lock-free algorithm; oracles: porcupine linearizability of the Put/Get history per user key against a sorted-map model (Get = newest version <= ts), every iteration strictly sorted, duplicate-free, containing every key whose Put returned before it began and only values some Put wrote for that key, final content = one of the last concurrent writers per key. non-trivial = run with an iteration that returned >=2 entries",
 		Real: []string{"skl.Skiplist and its arena (real code, tag verif)"}, Stubs: []string{"goroutine scheduling (vhook points before each CAS)", "tower heights (case PRNG)"},
 	})
+	// C17 MANIFEST
+	register(&Scenario{Prop: "C17", Family: "L", Level: "fault_enumeration", Gen: genManifestCase,
+		Run:  func(t *testing.T, c *Case, keep bool) Outcome { return ExecuteManifest(t, c, keep) },
+		Rule: "1-3 goroutines push 1-10 change sets each (1-4 creates/deletes per set, several levels, key ids, compression types, deletes of unknown tables) through the production addChanges with a rewrite threshold from {0,1,3,10,1000} so that automatic rewrites happen; then (1) the in-memory table map and ReplayManifestFile of the file must equal the model after the last set; (2) the file is cut at EVERY byte of the last <=4 change sets: replay must succeed and equal the model after the last set wholly before the cut; (3) one bit is flipped at EVERY byte of the same region: replay must fail or leave the state after some complete set, never anything else. evaluations = change-set histories; non-trivial = history with >=1 appended (not rewritten-away) change set",
+		Real: []string{"manifest.go: helpOpenOrCreateManifestFile, addChanges, rewrite, ReplayManifestFile (real code, tag verif)"}, Stubs: []string{"the table files themselves (the MANIFEST code never opens them)", "goroutine scheduling"},
+	})
 	// C04 own writes
 	p4 := profT("T-C04")
 	p4.WIter = 5
